@@ -1,5 +1,5 @@
 #!/bin/bash
-# usage: import_batch.sh <outdir> <id> [<id>...]   e.g. import_batch.sh /tmp/mut/out5 C01-D1 C01-R1
+# usage: import_batch.sh <outdir> <id> (ids must be new: existing directories are overwritten) [<id>...]   e.g. import_batch.sh /tmp/mut/out5 C01-D1 C01-R1
 # D*: verified with seedtest.py against the scratch worktree $REPO (default /tmp/wt2) and imported into seeded/;
 # R*: copied into benign/ and run through benign_matrix.py.
 set -u
